@@ -832,6 +832,12 @@ def run(ctx):
                 if users and all(u in ("split_first_chunk", "split_at", "split_at_checked", "split_first", "split_last_chunk") for u in users):
                     continue
                 slices.append((str(a[1][1]).split("::")[-1], tuple(x[1] if x[0] == "int" else None for x in a[1][2])))
+    for bb, t in nrr.calls():
+        # the checked form of the same slices: buf.get(8..12) / buf.get(12..)
+        if strip_generics(t["fn"].get("path", "")).endswith("slice::get") or strip_generics(t["fn"].get("path", "")).endswith("[T]>::get"):
+            a = nev.call_args(bb)
+            if len(a) == 2 and a[0] == ("param", nrr.path, 1) and isinstance(a[1], tuple) and a[1][0] == "agg" and "Range" in str(a[1][1]):
+                slices.append((str(a[1][1]).split("::")[-1], tuple(x[1] if x[0] == "int" else None for x in a[1][2])))
     from lib import le_u32_source
     for bb, t in nrr.calls():
         # the length word read byte by byte: from_le_bytes([buf[8], buf[9], buf[10], buf[11]])
